@@ -320,8 +320,14 @@ ZAt(W, k, l, s) ==
       tau == Tau(W.d.method.scheme, W.d.method.degree)
       w == ZInterp(tau, Div(s, StepLen(W, k)))
   IN Tup([i \in 1..NZ(W.d) |-> SumSeq(Tup([j \in 1..Len(tau) |-> Mul(w[j], st.zr[j][i])]))])
+\* quadrature states between integrator points (explicit schemes): value at the start of the step plus the integrated
+\* dense output of the integrand,  s * (c1 + c2 s + c3 s^2 + ...)
+QAt(W, k, l, s) ==
+  LET c == W.res[k + 1].coefqs[l + 1]
+  IN VAdd(VAdd(W.Q[k + 1], W.res[k + 1].qs[l + 1]), VScale(s, PolyVec(c, s)))
 EnvDense(W, k, l, s) ==
   [EnvIntg(W, k, l) EXCEPT !.x = StateAt(W, k, l, s), !.t = Add(W.ig[k * W.M + l + 1], s),
+                           !.q = IF W.d.method.kind # "DC" /\ NQ(W.d) > 0 /\ W.d.dyn = "ode" THEN QAt(W, k, l, s) ELSE @,
                            !.z = IF W.d.method.kind = "DC" /\ NZ(W.d) > 0 THEN ZAt(W, k, l, s) ELSE @]
 \* the very last sample: end of the last step's polynomial, final-node values of everything else
 EnvDenseEnd(W) ==
